@@ -158,6 +158,17 @@ CLAIMS = {
         not_decided='nothing essential - this property is static; residual risk is the ABI calculator (x86-64 SysV, no _pack_) and configurations '
                     'other than the default build (OPENGL display structs are noted, not decided)',
         design_ref='3/C18'),
+    'C20': dict(
+        module='c20', level='other',
+        technique='dimension typing of the Python unit converters (abstract interpretation over monomials), constant folding of the unit tables, algebraic summaries of rotations.c checked as polynomial identities (sympy, Groebner reduction)',
+        decided='every unit converter is value * old^d / new^d with d the dimension of the particle field it is applied to, convert_G = G_SI M T^2 / L^3, each particle field uses the converter of its dimension '
+                'with the arguments in the right slots, so conversion is reversible and transitive for every unit triple by construction; table aliases are equal, SI definitions exact, yr2pi^2 G M_sun = au^3; '
+                'the units setter recomputes G and converts existing particles; reb_rotation_mul is the Hamilton product (norm-multiplicative), inverse/conjugate/normalize/identity/cross/dot satisfy their '
+                'defining identities, reb_vec3d_rotate is v -> q v q* (an isometry) and rotate(v,p*q) = rotate(rotate(v,q),p), init_angle_axis yields a unit quaternion; a particle is rotated in position and velocity '
+                'with the same quaternion; irotate/imul/iadd/isub act on all N particles (variational included) and iadd/isub refuse unequal N; the antiparallel branch of init_from_to exists; Rotation forwards to C; '
+                'all component triples are isomorphic.',
+        not_decided='numerical behaviour near degeneracy; planetary GM values; second-order variational frame shifts; Euler-angle constructors',
+        design_ref='3/C20'),
 }
 
 NOT_BUILT_REASON = 'rules designed in DESIGN.md section 3 but not built yet; no armed static rule, so no claim is made'
